@@ -136,10 +136,10 @@ def _validate_int_param(value: Optional[str], *, op: str, param_name: str, min_v
     if value is None or value == "NULL":
         return
     try:
-        # A negated constant is rendered with surrounding parentheses, e.g. "(-3)"
+        # A negated constant is rendered with surrounding parentheses, e.g. "(- 3)"
         while value.startswith("(") and value.endswith(")"):
             value = value[1:-1].strip()
-        if int(value) < min_val:
+        if int(value.replace(" ", "")) < min_val:
             raise SemanticError(
                 "1-1-18-4", op=op, param_type=param_name, correct_type=f">= {min_val}"
             )
@@ -211,8 +211,8 @@ def _create_default_registry() -> OperatorRegistry:
 
     # Unary operators
     # Arithmetic functions
-    ops.register(tokens.PLUS, "(+{0})", is_prefix=True)
-    ops.register(tokens.MINUS, "(-{0})", is_prefix=True)
+    ops.register(tokens.PLUS, "(+ {0})", is_prefix=True)
+    ops.register(tokens.MINUS, "(- {0})", is_prefix=True)
     ops.register(tokens.CEIL, "CEIL({0})")
     ops.register(tokens.FLOOR, "FLOOR({0})")
     ops.register(tokens.ABS, "ABS({0})")
